@@ -16,9 +16,10 @@ EXTENDS Lattice, Chars
 cSP == 32  cDASH == 45  cTILDE == 126  cBAR == 124  cCOLON == 58  cBANG == 33
 cPLUS == 43  cDOT == 46  cAPOS == 39  cCOMMA == 44  cBQUOTE == 96  cUNDER == 95  cEQ == 61
 cSLASH == 47  cBSLASH == 92  cLPAR == 40  cRPAR == 41
+cGT == 62  cLT == 60  cCARET == 94  cv == 118  cV == 86
 
 Modelled == {cSP, cDASH, cTILDE, cBAR, cCOLON, cBANG, cPLUS, cDOT, cAPOS, cCOMMA, cBQUOTE, cUNDER, cEQ,
-             cSLASH, cBSLASH, cLPAR, cRPAR}
+             cSLASH, cBSLASH, cLPAR, cRPAR, cGT, cLT, cCARET, cv, cV}
 
 G(gx, gy) == <<gx * 2, gy * 4>>
 pa == G(0,0) pb == G(1,0) pc == G(2,0) pd == G(3,0) pe == G(4,0)
@@ -36,6 +37,10 @@ Broken(p1, p2) == [k |-> "L", s |-> PMin(p1, p2), e |-> PMax(p1, p2), b |-> TRUE
 Arc(p1, p2, rad) == IF PLe(p1, p2) THEN [k |-> "A", s |-> p1, e |-> p2, r |-> rad, sw |-> FALSE, mj |-> FALSE]
                     ELSE [k |-> "A", s |-> p2, e |-> p1, r |-> rad, sw |-> TRUE, mj |-> FALSE]
 U2 == 4  U4 == 8  U6 == 12  U8 == 16  U16 == 32  B12 == 3
+\* a filled polygon (arrowhead): the sequence of its vertices
+Poly(pts) == [k |-> "P", pts |-> pts]
+AdjX(p, h) == <<p[1] + h, p[2]>>          \* adjust_x(h / 2): half a quarter-cell is one lattice unit
+AdjY(p, h) == <<p[1], p[2] + h>>
 
 STRONG == 4  MEDIUM == 3  WEAK == 2
 
@@ -62,6 +67,11 @@ Sig(ch) ==
     [] ch = cBSLASH -> << <<STRONG, <<Line(pa, py)>> >> >>
     [] ch = cLPAR  -> << <<MEDIUM, <<Arc(pe, py, U8)>> >> >>
     [] ch = cRPAR  -> << <<MEDIUM, <<Arc(pu, pa, U8)>> >> >>
+    [] ch = cV     -> << <<MEDIUM, <<Poly(<<pf, pj, pw>>)>> >>, <<WEAK, <<Line(pm, pw)>> >> >>
+    [] ch = cv     -> << <<MEDIUM, <<Poly(<<pf, pj, pw>>)>> >> >>
+    [] ch = cCARET -> << <<MEDIUM, <<Poly(<<pp, pc, pt>>)>> >> >>
+    [] ch = cGT    -> << <<MEDIUM, <<Poly(<<pf, po, pp>>)>> >> >>
+    [] ch = cLT    -> << <<MEDIUM, <<Poly(<<pj, pk, pt>>)>> >> >>
     [] OTHER -> <<>>
 
 \* Property::arcs_to: some signature arc runs from a to b in that direction (whatever its radius)
@@ -167,6 +177,31 @@ Rules(ch, N) ==
                          <<Med(N.t, pr, pw) /\ Med(N.b, pc, ph), <<Arc(pw, pc, U6)>> >>,
                          <<Med(N.l, pm, po) /\ Med(N.r, pk, pl), <<Line(pk, po)>> >> >>
     [] ch = cEQ    -> << <<TRUE, <<Line(<<0, 6>>, <<8, 6>>), Line(<<0, 10>>, <<8, 10>>)>> >> >>
+    [] ch \in {cV, cv} ->
+         << <<Med(N.t, pr, pw), <<Poly(<<pf, pj, pw>>), Line(pc, ph)>> >>,
+            <<Med(N.tl, ps, py), <<Poly(<<AdjX(pf, -1), ps, AdjY(pd, 1)>>), Line(pa, pg)>> >>,
+            <<Med(N.tr, pu, pq), <<Poly(<<AdjX(pj, 1), pq, AdjY(pb, 1)>>), Line(pe, pi)>> >>,
+            <<N.tl = cDOT, <<Poly(<<pf, po, pc>>)>> >>,
+            <<N.tr = cDOT, <<Poly(<<pj, pk, pc>>)>> >>,
+            <<Med(N.b, pc, ph) /\ (ch = cV \/ ~Med(N.t, pr, pw)), <<Line(pa, pw), Line(pw, pe)>> >> >>
+    [] ch = cCARET ->
+         << <<Med(N.b, pc, ph), <<Poly(<<pp, pc, pt>>), Line(pr, pw)>> >>,
+            <<Med(N.br, pa, pg) /\ N.bl # cSLASH, <<Poly(<<AdjX(pt, 1), pg, AdjY(pv, -1)>>), Line(ps, py)>> >>,
+            <<Med(N.bl, pe, pi) /\ N.br # cBSLASH, <<Poly(<<AdjX(pp, -1), pi, AdjY(px, -1)>>), Line(pu, pq)>> >>,
+            <<Med(N.t, pr, pw) /\ ~Med(N.b, pc, ph), <<Line(pc, pu), Line(pc, py)>> >>,
+            <<N.bl = cSLASH /\ N.br = cBSLASH, <<Line(pc, pu), Line(pc, py)>> >> >>
+    [] ch = cGT ->
+         << <<Med(N.l, pn, po), <<Poly(<<pf, po, pp>>)>> >>,
+            <<Med(N.r, pk, pl) /\ ~Med(N.l, pn, po), <<Line(pf, po), Line(po, pp)>> >>,
+            <<N.l = cBQUOTE, <<Poly(<<pf, po, pp>>)>> >>,
+            <<N.l = cDOT, <<Poly(<<pf, po, pp>>)>> >>,
+            <<N.l = cGT, <<Poly(<<pf, po, pp>>)>> >> >>
+    [] ch = cLT ->
+         << <<Med(N.r, pk, pl), <<Poly(<<pj, pk, pt>>)>> >>,
+            <<Med(N.l, pm, po) /\ ~Med(N.r, pk, pl), <<Line(pj, pk), Line(pk, pt)>> >>,
+            <<N.r = cDOT, <<Poly(<<pj, pk, pt>>)>> >>,
+            <<N.r = cAPOS, <<Poly(<<pj, pk, pt>>)>> >>,
+            <<N.r = cLT, <<Poly(<<pj, pk, pt>>)>> >> >>
     [] OTHER -> <<>>
 
 \* every fragment any rule of ch can draw (for C05's stroke envelope)
